@@ -626,7 +626,8 @@ def gen_peer_script(seed, opts=None):
         n_frames = len(toks)
 
     def payload_spec(idx, nxt=True, complete=False):
-        d = app.content(0, 'r' if requester_real else 'c', idx, 'D', rng.randint(1, 40)) if nxt else b''
+        # (now and then an element whose payload is empty: legal, NEXT is set all the same)
+        d = app.content(0, 'r' if requester_real else 'c', idx, 'D', _pick(rng, [(6, rng.randint(1, 40)), (1, 0)])) if nxt else b''
         return {'t': 'PAYLOAD', 'sid': sid, 'data': d.hex(), 'next': nxt, 'complete': complete}
 
     frames = []
